@@ -26,6 +26,8 @@ func init() {
 	addMutants(
 		&Mutant{Prop: "C18", Name: "c18-truncate-in-place", File: "utils/io.go",
 			Old: "\treturn os.Rename(tmp, path)", New: "\tb, err := os.ReadFile(tmp)\n\tif err != nil {\n\t\treturn err\n\t}\n\treturn os.WriteFile(path, b, os.ModePerm)", Expect: "R-ATOMIC-REPLACE"},
+		&Mutant{Prop: "C18", Name: "c18-remove-dest-first", File: "utils/io.go",
+			Old: "\treturn os.Rename(tmp, path)", New: "\tos.Remove(path)\n\treturn os.Rename(tmp, path)", Expect: "R-ATOMIC-REPLACE"},
 		&Mutant{Prop: "C18", Name: "c18-no-sync-before-rename", File: "utils/io.go",
 			Old: "\tif _, err = f.Write(formatted.Bytes()); err == nil {\n\t\terr = f.Sync()\n\t}", New: "\t_, err = f.Write(formatted.Bytes())", Expect: "R-ATOMIC-REPLACE"},
 		&Mutant{Prop: "C18", Name: "c18-get-unlocked", File: "provider/auth/manager.go",
@@ -120,6 +122,11 @@ func ruleAtomicReplace(c *Ctx) {
 			}
 		case "os.CreateTemp", "io/ioutil.TempFile":
 			tmpVal = ins.(ssa.Value)
+		case "os.Remove", "os.RemoveAll", "os.Truncate":
+			if origin(cc.Args[0]) == ssa.Value(dest) {
+				direct = true
+				c.Bad("atomic:dest-not-removed", p.InstrPos(ins), "the destination file is removed/truncated before the new one is renamed over it: a crash between the two leaves no users/routes file at all (restart falls back to the default administrator and loses every route)")
+			}
 		}
 	})
 	if !direct {
